@@ -53,7 +53,40 @@ def gen_powercurve(rng, cap: float, max_kw: float) -> TabularPowercurve:
     return TabularPowercurve(data=data, nominal_max_charge_kw=max_kw, battery_capacity_kwh=cap)
 
 
+def gen_rate_case(rng: random.Random, k: int) -> Dict[str, Any]:
+    """the only operations that change a plug's charge rate (`ChargerState.set_charge_rate`,
+    `scale_charge_rate`, reached through `Station.set_charger_rate / scale_charger_rate`): a sequence
+    of requests incl. negative, zero, boundary and excessive values; C04 needs rates to stay >= 0"""
+    from returns.result import Failure
+
+    from nrel.hive.model.energy.charger.charger import Charger
+    from nrel.hive.model.station.charger_state import ChargerState
+
+    factory = rng.choice([3.3, 7.2, 50.0, 150.0, rnd(rng, 1, 200)])
+    cs = ChargerState.build(Charger(id="p", energy_type=EnergyType.ELECTRIC, rate=factory, units="kilowatts"), 2)
+    ops = []
+    for _ in range(rng.randint(1, 5)):
+        cur = cs.charger.rate
+        if rng.random() < 0.6:
+            val = rng.choice([-5.0, -0.001, 0.0, cur / 2, cur, cur * 1.01, cur * 2, rnd(rng, -10, 2 * factory)])
+            res = cs.set_charge_rate(val)
+            kind = "set"
+        else:
+            val = rng.choice([-1.0, -0.01, 0.0, 0.5, 1.0, 1.01, 1.5, rnd(rng, -0.5, 1.5)])
+            res = cs.scale_charge_rate(val)
+            kind = "scale"
+        if isinstance(res, Failure):
+            ops.append({"kind": kind, "value": q(val), "accepted": False, "rate": q(cs.charger.rate)})
+        else:
+            cs = res.unwrap()
+            ops.append({"kind": kind, "value": q(val), "accepted": True, "rate": q(cs.charger.rate)})
+    return {"op": "rate", "id": f"m{k}", "factory": q(factory), "ops": ops,
+            "shape": ["rate", tuple(sorted({(o["kind"], o["accepted"]) for o in ops}))], "fn": "rate", "pre": None, "post": None}
+
+
 def gen_case(rng: random.Random, k: int, template_vehicle) -> Dict[str, Any]:
+    if rng.random() < 0.06:
+        return gen_rate_case(rng, k)
     n = Interner(9)
     n.fix("mech", ["gen"])
     electric = rng.random() < 0.6
